@@ -692,6 +692,11 @@ func ParseBackendRequest(method string, u *url.URL, h http.Header, contentLength
 		if v := h.Get("Content-Encoding"); v != "" && v != "identity" {
 			cs.add("req.contradicting-header", "Content-Encoding %q on a Connect streaming request", v)
 		}
+		for _, v := range h.Values("Connect-Protocol-Version") {
+			if v != "1" {
+				cs.add("req.contradicting-header", "Connect-Protocol-Version %q on a Connect streaming request", v)
+			}
+		}
 	case GRPC, GRPCWeb:
 		r.Compression = h.Get("Grpc-Encoding")
 		r.Accept = splitList(h.Values("Grpc-Accept-Encoding"))
